@@ -134,6 +134,32 @@ def _is_expr(src):
   except SyntaxError:
     return False
 
+# ------------------------------------------------------------------------------------------------
+# last-statement sweep: evaluate() treats the LAST statement specially (its value is the result); every statement
+# kind in last position, with a right-hand side / expression that has side effects (a counter, a print, a pop), so
+# that executing it twice, dropping it, or evaluating it in another order is visible in variables and stdout.
+LAST_PRELUDE = ("log = []\n"
+                "def f_():\n  log.append(len(log))\n  print('called', len(log))\n  return len(log)\n"
+                "class H_:\n  pass\n"
+                "h_ = H_()\nd_ = {}\nxs_ = [3, 2, 1]\nn_ = 0\n")
+LAST_STATEMENTS = [
+    'f_()', 'v_ = f_()', 'v_ = w_ = f_()', "d_['k'] = f_()", 'h_.x = f_()', 'a_, b_ = f_(), f_()', 'a_, *r_ = xs_.pop(), f_(), f_()',
+    "v_ = d_['j'] = f_()", 'n_ += f_()', 'm_: int = f_()', 'm_: int', 'xs_.pop()', 'a_, b_ = xs_.pop(), xs_.pop()',
+    "d_[f_()] = f_()", 'h_.x, h_.y = f_(), f_()', '(q_ := f_())', 'xs_[0], xs_[1] = xs_[1], f_()', 'del xs_[0]', 'pass',
+    'if f_():\n  v_ = f_()', 'for i_ in (1, 2):\n  f_()', 'while n_ < 2:\n  n_ += f_()', 'try:\n  v_ = f_()\nfinally:\n  f_()',
+    'with NULLCTX:\n  v_ = f_()', 'def g_():\n  return f_()', 'class K_:\n  c_ = f_()', 'import math', 'assert f_()',
+    'v_ = [f_() for _ in (1, 2)]', 'print(f_())', "h_.z = [print('once')]", 'v_ = xs_[f_():]', 'raise ValueError(f_())',
+    "d_['k'] = xs_.pop() + f_()", 'lambda: f_()', 'v_ = lambda: f_()', "v_ = f'{f_()}'", 'global G_', 'v_ = yield_ = 1',
+]
+
+def last_statement_programs():
+  out = []
+  for st in LAST_STATEMENTS:
+    out.append(LAST_PRELUDE + st)
+    out.append(LAST_PRELUDE + 'f_()\n' + st)          # the same with an ordinary statement before it
+    out.append(LAST_PRELUDE + st + '\n' + 'n_ = n_')    # and NOT in last position (control)
+  return out
+
 class Gen:
   """Random, terminating, mostly side-effect free programs with deep nesting."""
   def __init__(self, rng):
@@ -303,8 +329,9 @@ def oracle(code, arg_bits, scopes, flag_order):
           hits.append(('C19/granted-program-differs/stdout', 'captured stdout differs from plain execution'))
         for k, v in g2.items():
           if k in ('__builtins__', 'SENTINEL', 'NULLCTX'): continue
-          if isinstance(v, (int, float, str, bool, tuple, type(None))) and (k not in out or _norm(out[k]) != _norm(v)):
-            hits.append(('C19/granted-program-differs/variables', 'variable %s differs from plain execution' % k)); break
+          pv = _plain(v)
+          if pv is not _OPAQUE and (k not in out or _plain(out[k]) != pv):
+            hits.append(('C19/granted-program-differs/variables', 'variable %s differs from plain execution: %r vs %r' % (k, out.get(k, '<absent>'), v))); break
     else:
       if not isinstance(err, errors.CodeError) or type(err.cause) is not type(plain_err):
         hits.append(('C19/granted-program-differs/error', 'plain execution raises %s but evaluate gives %r' % (type(plain_err).__name__, err)))
@@ -318,6 +345,32 @@ def _norm(v):
   if isinstance(v, tuple):
     return tuple(_norm(x) for x in v)
   return v
+
+_OPAQUE = object()
+def _plain(v, depth=0):
+  """Comparable form of a value built from plain data (ints, strs, tuples, lists, dicts, sets, simple instances);
+  _OPAQUE for anything else (functions, classes, modules …), which is then not compared."""
+  if depth > 6:
+    return _OPAQUE
+  if isinstance(v, (bool, int, float, type(None), bytes, complex)):
+    return (type(v).__name__, v)
+  if isinstance(v, str):
+    return ('str', _norm(v))
+  if isinstance(v, (tuple, list)):
+    items = [_plain(x, depth + 1) for x in v]
+    return _OPAQUE if any(i is _OPAQUE for i in items) else (type(v).__name__, tuple(items))
+  if isinstance(v, (set, frozenset)):
+    items = [_plain(x, depth + 1) for x in v]
+    return _OPAQUE if any(i is _OPAQUE for i in items) else (type(v).__name__, tuple(sorted(items, key=repr)))
+  if isinstance(v, dict):
+    items = [(_plain(k, depth + 1), _plain(x, depth + 1)) for k, x in v.items()]
+    return _OPAQUE if any(a is _OPAQUE or b is _OPAQUE for a, b in items) else ('dict', tuple(items))
+  if type(v).__module__ in ('', '__main__', 'builtins') or getattr(type(v), '__module__', None) is None:
+    d = getattr(v, '__dict__', None)
+    if isinstance(d, dict) and not callable(v) and not isinstance(v, type):
+      inner = _plain(d, depth + 1)
+      return _OPAQUE if inner is _OPAQUE else ('instance', type(v).__name__, inner)
+  return _OPAQUE
 
 def impl_validate(code, bits, flag_order):
   parsing, permissions, execution, errors = py()
@@ -493,6 +546,19 @@ def run(ctx):
       run_oracle(d['code'], None, [d['bits'], ALL])
     elif r < 0.35:
       run_oracle(d['code'], ALL, [d['bits']])
+  # (F) last-statement sweep (oracle: stdout / variables / error class equal plain execution)
+  nlast = 0
+  for src in last_statement_programs():
+    try:
+      compile(src, '', 'exec')
+    except SyntaxError:
+      continue
+    nlast += 1
+    for bits, scs in ((ALL, []), (None, [ALL]), (ALL, [ALL])):
+      run_oracle(src, bits, scs)
+      ctx.count(('last', src, bits, tuple(scs)), nontrivial=True, kind='last-statement',
+                sample=dict(kind='last-statement', code=src[len(LAST_PRELUDE):], permission_bits=bits) if nlast == 4 and bits == ALL and not scs else None)
+  ctx.extra['last_statement_programs'] = nlast
   ctx.extra['oracle_evaluations'] = ocount
   # violation search when something is broken and nothing was hit yet: withhold each flag on each snippet under evaluate
   if ctx.is_broken() and not ctx.hits:
